@@ -263,9 +263,8 @@ def run_shard(shard):
 
 def _strategy():
     from hypothesis import strategies as st
-    sig = st.one_of(st.sampled_from(sorted(SIGNIFICANT)),
-                    st.sampled_from(sorted(SIGNIFICANT)),
-                    st.sampled_from(PAYLOADS[:27]))
+    sig = st.sampled_from(sorted(SIGNIFICANT))
+    ins = st.one_of(sig, sig, st.sampled_from(PAYLOADS[:27]))
     any_text = st.text(max_size=64)
     dense = st.text(alphabet=st.one_of(sig, st.sampled_from("ab1"),
                                        st.characters()), max_size=64)
@@ -278,7 +277,7 @@ def _strategy():
             op = draw(st.sampled_from(["ins", "del", "dup", "swap", "join"]))
             pos = draw(st.integers(0, max(len(base) - 1, 0)))
             if op == "ins":
-                base = base[:pos] + draw(sig) + base[pos:]
+                base = base[:pos] + draw(ins) + base[pos:]
             elif op == "del" and base:
                 base = base[:pos] + base[pos + 1:]
             elif op == "dup" and base:
